@@ -51,16 +51,29 @@ def package_of(harness):
     return 'sfs-cli' if harness.startswith('k_cli_') else 'sfs-core'
 
 
-def _refresh_bin_crate():
-    """cargo does not re-link the uplifted `debug/sfs` pointer when the sfs-cli unit of *this* source path is fresh, so
-    after a build of another copy of the repository in the same target directory (scratch copies of the seed / self
-    tests) Kani would read the other copy's goto binary.  Forgetting the fingerprint of sfs-cli forces a rebuild of
-    that one crate (about 10 s) and a fresh pointer."""
+_REBUILT = set()
+
+
+def _force_rebuild(target_dir):
+    """Forget the build output of the two workspace crates (not of their dependencies) in a target directory, once per
+    process, so that every check compiles /repo's *current* text.  cargo's freshness test is by modification time: a
+    source file restored with an older time stamp, or another copy of the repository built in the same target directory
+    (the scratch copies of the seed / self tests), left artefacts that cargo considered fresh, and Kani then verified the
+    previous code -- observed twice as a false alarm on the unchanged tree (DESIGN 10).  Costs one rebuild of sfs-core /
+    sfs-cli per check (about 15 s)."""
     import glob
     import shutil
-    for d in (glob.glob(os.path.join(TARGET, 'kani', '*', 'debug', '.fingerprint', 'sfs-cli-*'))
-              + glob.glob(os.path.join(TARGET, 'kani', '*', 'debug', 'build', 'sfs-cli'))):
-        shutil.rmtree(d, ignore_errors=True)
+    if target_dir in _REBUILT:
+        return
+    _REBUILT.add(target_dir)
+    for pkg in ('sfs-core', 'sfs-cli'):
+        for d in (glob.glob(os.path.join(target_dir, '**', 'build', pkg), recursive=True)
+                  + glob.glob(os.path.join(target_dir, '**', '.fingerprint', pkg + '-*'), recursive=True)):
+            shutil.rmtree(d, ignore_errors=True)
+
+
+def _refresh_bin_crate():
+    _force_rebuild(TARGET)
 
 
 def harness_modules():
@@ -123,8 +136,7 @@ def _run_chunk(names, repo='/repo', jobs=8, harness_timeout=600, total_timeout=7
     out_json = os.path.join(BUILD, 'kani-result-%d.json' % os.getpid())
     if os.path.exists(out_json):
         os.remove(out_json)
-    if pkg == 'sfs-cli':
-        _refresh_bin_crate()
+    _force_rebuild(TARGET)
     cmd = ['cargo', 'kani', '-p', pkg, '--target-dir', TARGET,
            '-Z', 'unstable-options', '-Z', 'function-contracts', '-Z', 'stubbing',
            '--export-json', out_json, '--harness-timeout', f'{harness_timeout}s',
@@ -321,8 +333,7 @@ def run_harnesses(names, repo='/repo', jobs=6, harness_timeout=600, total_timeou
 def counterexample(harness, repo='/repo', harness_timeout=900):
     """re-run one failing harness with concrete playback; returns list of generated
     unit tests (text) for failed assertions (not covers)."""
-    if package_of(harness) == 'sfs-cli':
-        _refresh_bin_crate()
+    _force_rebuild(TARGET)
     cmd = ['cargo', 'kani', '-p', package_of(harness), '--target-dir', TARGET,
            '-Z', 'unstable-options', '-Z', 'function-contracts', '-Z', 'stubbing', '-Z', 'concrete-playback',
            '--concrete-playback=print', '--harness-timeout', f'{harness_timeout}s',
@@ -357,6 +368,7 @@ def native_replay(harness, test_text, test_name, repo='/repo'):
         f.write(test_text)
     e = env()
     e['CARGO_TARGET_DIR'] = PLAYBACK_TARGET
+    _force_rebuild(PLAYBACK_TARGET)
     cmd = ['cargo', 'kani', 'playback', '-Z', 'concrete-playback', '-p', package_of(harness), '--', test_name, '--exact'][:-1]
     try:
         p = subprocess.run(cmd, cwd=repo, env=e, capture_output=True, text=True, timeout=1800)
